@@ -8,6 +8,10 @@
 //!   program = nv {kind} ns {stmt}     kind 0..7 = SINT INT DINT LINT USINT UINT UDINT ULINT, 8 = BOOL
 //!   expr = 0 u kind val | 1 x | 2 op e | 3 op l r        stmt: see fn enc_stmt
 //!   cycles  = nc { nset {x val} }
+//!   ids starting with f: programs with FUNCTION_BLOCK calls.  program = nv {kind} nfb {fb} ninst {fb index} ns {stmt}
+//!             fb = en eno nin {kind} nout {kind} nloc {kind} ns {stmt over the block's variables [EN] inputs outputs [ENO] locals}
+//!             stmt 9 = call: inst has_en [expr] nin {expr} nout {0 | main variable + 1} (0 | ENO target + 1); observations list the
+//!             program's variables and then every instance's variables (the flat store of Model/StCalls.v)
 //!   obs     = per cycle: status [nv {kind val}]   status 0 ok, 1 div0, 2 mod0, 3 overflow, 4 for-step-0,
 //!             5 type mismatch, 6 cond-not-bool, 7 case selector, 8 control flow, 9 undefined var, 10 panic, 11 other
 //!             (a case ends at its first faulting cycle); status 20 = did not compile
@@ -35,7 +39,22 @@ enum Stmt {
     While(Expr, Vec<Stmt>),
     Repeat(Vec<Stmt>, Expr),
     Exit, Continue, Return,
+    Call { inst: usize, en: Option<Expr>, ins: Vec<Expr>, outs: Vec<Option<usize>>, eno: Option<usize> },
 }
+#[derive(Clone, Debug, Default)]
+struct FbDef { en: bool, eno: bool, kin: Vec<usize>, kout: Vec<usize>, kloc: Vec<usize>, body: Vec<Stmt> }
+impl FbDef {
+    fn kinds(&self) -> Vec<usize> { let mut k = vec![]; if self.en { k.push(8); } k.extend(&self.kin); k.extend(&self.kout); if self.eno { k.push(8); } k.extend(&self.kloc); k }
+    fn names(&self) -> Vec<String> {
+        let mut n = vec![]; if self.en { n.push("EN".to_string()); }
+        n.extend((0..self.kin.len()).map(|i| format!("i{i}"))); n.extend((0..self.kout.len()).map(|i| format!("q{i}")));
+        if self.eno { n.push("ENO".to_string()); } n.extend((0..self.kloc.len()).map(|i| format!("l{i}"))); n
+    }
+}
+#[derive(Clone, Debug, Default)]
+struct Ext { fbs: Vec<FbDef>, insts: Vec<usize> }
+thread_local! { static NAMES: std::cell::RefCell<Vec<String>> = std::cell::RefCell::new(Vec::new()); }
+fn vname(x: usize) -> String { NAMES.with(|n| n.borrow().get(x).cloned()).unwrap_or_else(|| format!("v{x}")) }
 const OPS: [&str; 14] = ["+", "-", "*", "/", "MOD", "=", "<>", "<", "<=", ">", ">=", "AND", "OR", "XOR"];
 
 fn pr_expr(e: &Expr) -> String {
@@ -43,7 +62,7 @@ fn pr_expr(e: &Expr) -> String {
         Expr::Lit(_, 8, v) => if *v != 0 { "TRUE".into() } else { "FALSE".into() },
         Expr::Lit(true, _, v) => if *v < 0 { format!("({v})") } else { format!("{v}") },
         Expr::Lit(false, k, v) => format!("{}#{v}", KNAMES[*k]),
-        Expr::Var(x) => format!("v{x}"),
+        Expr::Var(x) => vname(*x),
         Expr::Un(0, e) => format!("(-{})", pr_expr(e)),
         Expr::Un(_, e) => format!("(NOT {})", pr_expr(e)),
         Expr::Bin(op, l, r) => format!("({} {} {})", pr_expr(l), OPS[*op], pr_expr(r)),
@@ -53,7 +72,7 @@ fn pr_block(b: &[Stmt], ind: usize, out: &mut String) { for s in b { pr_stmt(s, 
 fn pr_stmt(s: &Stmt, ind: usize, out: &mut String) {
     let pad = "  ".repeat(ind);
     match s {
-        Stmt::Assign(x, e) => out.push_str(&format!("{pad}v{x} := {};\n", pr_expr(e))),
+        Stmt::Assign(x, e) => out.push_str(&format!("{pad}{} := {};\n", vname(*x), pr_expr(e))),
         Stmt::If(c, t, elifs, el) => {
             out.push_str(&format!("{pad}IF {} THEN\n", pr_expr(c)));
             pr_block(t, ind + 1, out);
@@ -72,7 +91,7 @@ fn pr_stmt(s: &Stmt, ind: usize, out: &mut String) {
             out.push_str(&format!("{pad}END_CASE;\n"));
         }
         Stmt::For(x, a, b, st, body) => {
-            out.push_str(&format!("{pad}FOR v{x} := {} TO {} BY {} DO\n", pr_expr(a), pr_expr(b), pr_expr(st)));
+            out.push_str(&format!("{pad}FOR {} := {} TO {} BY {} DO\n", vname(*x), pr_expr(a), pr_expr(b), pr_expr(st)));
             pr_block(body, ind + 1, out);
             out.push_str(&format!("{pad}END_FOR;\n"));
         }
@@ -81,11 +100,36 @@ fn pr_stmt(s: &Stmt, ind: usize, out: &mut String) {
         Stmt::Exit => out.push_str(&format!("{pad}EXIT;\n")),
         Stmt::Continue => out.push_str(&format!("{pad}CONTINUE;\n")),
         Stmt::Return => out.push_str(&format!("{pad}RETURN;\n")),
+        Stmt::Call { inst, en, ins, outs, eno } => {
+            let mut a: Vec<String> = vec![];
+            if let Some(e) = en { a.push(format!("EN := {}", pr_expr(e))); }
+            for (i, e) in ins.iter().enumerate() { a.push(format!("i{i} := {}", pr_expr(e))); }
+            for (i, t) in outs.iter().enumerate() { if let Some(x) = t { a.push(format!("q{i} => {}", vname(*x))); } }
+            if let Some(x) = eno { a.push(format!("ENO => {}", vname(*x))); }
+            out.push_str(&format!("{pad}f{inst}({});\n", a.join(", ")));
+        }
     }
 }
-fn source(kinds: &[usize], body: &[Stmt]) -> String {
-    let mut s = String::from("PROGRAM Main\nVAR\n");
+fn source(kinds: &[usize], body: &[Stmt], ext: &Ext) -> String {
+    let mut s = String::new();
+    for (j, fb) in ext.fbs.iter().enumerate() {
+        s += &format!("FUNCTION_BLOCK Fb{j}\nVAR_INPUT\n");
+        if fb.en { s += "  EN : BOOL;\n"; }
+        for (i, k) in fb.kin.iter().enumerate() { s += &format!("  i{i} : {};\n", KNAMES[*k]); }
+        s += "END_VAR\nVAR_OUTPUT\n";
+        for (i, k) in fb.kout.iter().enumerate() { s += &format!("  q{i} : {};\n", KNAMES[*k]); }
+        if fb.eno { s += "  ENO : BOOL;\n"; }
+        s += "END_VAR\nVAR\n";
+        for (i, k) in fb.kloc.iter().enumerate() { s += &format!("  l{i} : {};\n", KNAMES[*k]); }
+        s += "END_VAR\n";
+        NAMES.with(|n| *n.borrow_mut() = fb.names());
+        pr_block(&fb.body, 0, &mut s);
+        s += "END_FUNCTION_BLOCK\n";
+    }
+    NAMES.with(|n| n.borrow_mut().clear());
+    s += "PROGRAM Main\nVAR\n";
     for (i, k) in kinds.iter().enumerate() { s += &format!("  v{i} : {};\n", KNAMES[*k]); }
+    for (j, f) in ext.insts.iter().enumerate() { s += &format!("  f{j} : Fb{f};\n"); }
     s += "END_VAR\n";
     pr_block(body, 0, &mut s);
     s += "END_PROGRAM\n";
@@ -120,6 +164,13 @@ fn enc_stmt(s: &Stmt, o: &mut Vec<String>) {
         Stmt::Exit => o.push("6".into()),
         Stmt::Continue => o.push("7".into()),
         Stmt::Return => o.push("8".into()),
+        Stmt::Call { inst, en, ins, outs, eno } => {
+            o.push("9".into()); o.push(inst.to_string());
+            match en { Some(e) => { o.push("1".into()); enc_expr(e, o); } None => o.push("0".into()) }
+            o.push(ins.len().to_string()); for e in ins { enc_expr(e, o); }
+            o.push(outs.len().to_string()); for t in outs { o.push(t.map(|x| x + 1).unwrap_or(0).to_string()); }
+            o.push(eno.map(|x| x + 1).unwrap_or(0).to_string());
+        }
     }
 }
 
@@ -147,15 +198,39 @@ impl<'a> Dec<'a> {
             3 => { let x = self.n() as usize; let a = self.expr(); let b = self.expr(); let st = self.expr(); Stmt::For(x, a, b, st, self.block()) }
             4 => { let c = self.expr(); Stmt::While(c, self.block()) }
             5 => { let b = self.block(); Stmt::Repeat(b, self.expr()) }
-            6 => Stmt::Exit, 7 => Stmt::Continue, _ => Stmt::Return,
+            6 => Stmt::Exit, 7 => Stmt::Continue, 8 => Stmt::Return,
+            _ => {
+                let inst = self.n() as usize;
+                let en = if self.n() != 0 { Some(self.expr()) } else { None };
+                let nin = self.n(); let ins = (0..nin).map(|_| self.expr()).collect();
+                let nout = self.n(); let outs = (0..nout).map(|_| { let t = self.n() as usize; if t == 0 { None } else { Some(t - 1) } }).collect();
+                let t = self.n() as usize;
+                Stmt::Call { inst, en, ins, outs, eno: if t == 0 { None } else { Some(t - 1) } }
+            }
         }
+    }
+    fn ext(&mut self) -> Ext {
+        let nfb = self.n();
+        let fbs = (0..nfb).map(|_| {
+            let en = self.n() != 0; let eno = self.n() != 0;
+            let nin = self.n(); let kin = (0..nin).map(|_| self.n() as usize).collect();
+            let nout = self.n(); let kout = (0..nout).map(|_| self.n() as usize).collect();
+            let nloc = self.n(); let kloc = (0..nloc).map(|_| self.n() as usize).collect();
+            FbDef { en, eno, kin, kout, kloc, body: self.block() }
+        }).collect();
+        let ni = self.n();
+        Ext { fbs, insts: (0..ni).map(|_| self.n() as usize).collect() }
     }
 }
 
 // ---------------------------------------------------------------- generator
-struct Gen<'a> { rng: &'a mut Rng, kinds: Vec<usize>, counters: Vec<usize>, loop_vars: Vec<usize>, wild: bool, strict: bool }
+struct Gen<'a> { rng: &'a mut Rng, kinds: Vec<usize>, counters: Vec<usize>, loop_vars: Vec<usize>, wild: bool, strict: bool,
+               /// variables that are never assigned (a block's inputs); RETURN is not generated (function-block bodies); callable instances
+               readonly: Vec<usize>, no_return: bool, callable: Vec<(usize, FbDef)>,
+               /// variables that are neither read nor written by generated code (EN / ENO inside a block: the parser does not take them as names)
+               hidden: Vec<usize> }
 impl<'a> Gen<'a> {
-    fn vars_of(&self, k: usize) -> Vec<usize> { (0..self.kinds.len()).filter(|i| self.kinds[*i] == k && !self.counters.contains(i) && !self.loop_vars.contains(i)).collect() }
+    fn vars_of(&self, k: usize) -> Vec<usize> { (0..self.kinds.len()).filter(|i| self.kinds[*i] == k && !self.counters.contains(i) && !self.loop_vars.contains(i) && !self.hidden.contains(i)).collect() }
     fn boundary(&mut self, k: usize) -> i128 {
         let (lo, hi) = (kmin(k), kmax(k));
         match self.rng.below(16) { 0 => lo, 1 => hi, 2 => hi - 1, 3 => lo + 1, 4 => 0, 5 | 6 => 1, 7 => 2, 8 | 9 => if lo < 0 { -1 } else { 1 }, _ => (self.rng.range(-20, 20) as i128).clamp(lo, hi) }
@@ -207,11 +282,32 @@ impl<'a> Gen<'a> {
         let cnt = self.rng.below(n) + 1;
         (0..cnt).map(|_| self.stmt(depth, in_loop)).collect()
     }
+    /// a call of one of the callable instances with named arguments: EN from a boolean expression without arithmetic, inputs from
+    /// variables / typed literals of the input's kind, outputs and ENO bound to assignable variables of the same kind (or left unbound)
+    fn call(&mut self) -> Stmt {
+        let (inst, fb) = self.rng.pick(&self.callable).clone();
+        let en = if fb.en && self.rng.chance(5, 6) { Some(self.bool_expr(1)) } else { None };
+        let ins = fb.kin.iter().map(|k| {
+            let vars = self.vars_of(*k);
+            if !vars.is_empty() && self.rng.chance(2, 3) { Expr::Var(*self.rng.pick(&vars)) }
+            else if *k == 8 { Expr::Lit(false, 8, self.rng.below(2) as i128) }
+            else { let v = self.boundary(*k); Expr::Lit(false, *k, v.clamp(-(i64::MAX as i128), i64::MAX as i128)) }
+        }).collect();
+        let target = |g: &mut Self, k: usize| -> Option<usize> {
+            let vars: Vec<usize> = g.vars_of(k).into_iter().filter(|x| !g.readonly.contains(x)).collect();
+            if vars.is_empty() || g.rng.chance(1, 4) { None } else { Some(*g.rng.pick(&vars)) }
+        };
+        let outs = fb.kout.iter().map(|k| target(self, *k)).collect();
+        let eno = if fb.eno { target(self, 8) } else { None };
+        Stmt::Call { inst, en, ins, outs, eno }
+    }
     fn stmt(&mut self, depth: u32, in_loop: bool) -> Stmt {
+        if !self.callable.is_empty() && self.rng.chance(1, 4) { return self.call(); }
         let c = if depth == 0 { self.rng.below(5) } else { self.rng.below(14) };
         match c {
             0..=4 => {
-                let cands: Vec<usize> = (0..self.kinds.len()).filter(|i| !self.counters.contains(i) && !self.loop_vars.contains(i)).collect();
+                let cands: Vec<usize> = (0..self.kinds.len()).filter(|i| !self.counters.contains(i) && !self.loop_vars.contains(i) && !self.readonly.contains(i)).collect();
+                if cands.is_empty() { return Stmt::If(Expr::Lit(false, 8, 1), vec![], vec![], vec![]); }
                 let x = *self.rng.pick(&cands);
                 let k = self.kinds[x];
                 let e = if k == 8 { self.bool_expr(2) } else { self.int_expr(k, 2, true) };
@@ -242,7 +338,7 @@ impl<'a> Gen<'a> {
             }
             8 | 9 => {
                 // FOR over a dedicated control variable with small literal bounds
-                let cands: Vec<usize> = (0..self.kinds.len()).filter(|i| self.kinds[*i] < 7 && !self.counters.contains(i) && !self.loop_vars.contains(i)).collect();
+                let cands: Vec<usize> = (0..self.kinds.len()).filter(|i| self.kinds[*i] < 7 && !self.counters.contains(i) && !self.loop_vars.contains(i) && !self.readonly.contains(i)).collect();
                 if cands.is_empty() { return self.stmt(0, in_loop); }
                 let x = *self.rng.pick(&cands);
                 let k = self.kinds[x];
@@ -266,7 +362,7 @@ impl<'a> Gen<'a> {
             }
             10 | 11 => {
                 // WHILE / REPEAT bounded by a dedicated DINT counter incremented first in the body
-                let Some(cx) = (0..self.kinds.len()).find(|i| self.kinds[*i] == 2 && !self.counters.contains(i) && !self.loop_vars.contains(i)) else { return self.stmt(0, in_loop); };
+                let Some(cx) = (0..self.kinds.len()).find(|i| self.kinds[*i] == 2 && !self.counters.contains(i) && !self.loop_vars.contains(i) && !self.readonly.contains(i)) else { return self.stmt(0, in_loop); };
                 self.counters.push(cx);
                 let strict = self.strict;
                 let dl = move |v: i128| if strict { Expr::Lit(false, 2, v) } else { Expr::Lit(true, 2, v) };
@@ -283,7 +379,7 @@ impl<'a> Gen<'a> {
                     Stmt::If(Expr::Lit(false, 8, 1), vec![Stmt::Assign(cx, dl(0)), Stmt::Repeat(body, cond)], vec![], vec![])
                 }
             }
-            12 => if self.rng.chance(1, 6) { Stmt::Return } else if in_loop { if self.rng.chance(1, 2) { Stmt::Exit } else { Stmt::Continue } } else { self.stmt(0, in_loop) },
+            12 => if !self.no_return && self.rng.chance(1, 6) { Stmt::Return } else if in_loop { if self.rng.chance(1, 2) { Stmt::Exit } else { Stmt::Continue } } else { self.stmt(0, in_loop) },
             _ => self.stmt(depth - 1, in_loop),
         }
     }
@@ -309,8 +405,8 @@ fn fault_code(e: &RuntimeError) -> u8 {
         RuntimeError::InvalidControlFlow => 8, RuntimeError::UndefinedVariable(_) => 9, _ => 11,
     }
 }
-fn run_inner(kinds: &[usize], body: &[Stmt], cycles: &[Vec<(usize, i128)>]) -> String {
-    let src = source(kinds, body);
+fn run_inner(kinds: &[usize], body: &[Stmt], cycles: &[Vec<(usize, i128)>], ext: &Ext) -> String {
+    let src = source(kinds, body, ext);
     let mut h = match TestHarness::from_source(&src) { Ok(h) => h, Err(e) => return format!(" 20 {}", format!("{e:?}").replace(' ', "_").replace(':', ";")) };
     let pid = match h.runtime().storage().get_global("Main") { Some(Value::Instance(id)) => *id, _ => return " 20 no-instance".into() };
     let mut out = String::new();
@@ -323,6 +419,11 @@ fn run_inner(kinds: &[usize], body: &[Stmt], cycles: &[Vec<(usize, i128)>]) -> S
                 if let Some(e) = res.errors.first() { out += &format!(" {}", fault_code(e)); break; }
                 out += " 0";
                 for i in 0..kinds.len() { out += &format!(" {}", dump(h.runtime().storage().get_instance_var(pid, &format!("v{i}")))); }
+                // the instances' variables, in the order of the flat store
+                for (j, f) in ext.insts.iter().enumerate() {
+                    let iid = match h.runtime().storage().get_instance_var(pid, &format!("f{j}")) { Some(Value::Instance(id)) => Some(*id), _ => None };
+                    for name in ext.fbs[*f].names() { out += &format!(" {}", match iid { Some(id) => dump(h.runtime().storage().get_instance_var(id, &name)), None => "99 no-instance".into() }); }
+                }
                 // no call frame may be left behind
                 if !h.runtime().storage().frames().is_empty() { out += " FRAMES-LEFT"; }
             }
@@ -334,10 +435,10 @@ fn run_inner(kinds: &[usize], body: &[Stmt], cycles: &[Vec<(usize, i128)>]) -> S
 /// runs one case on its own thread; a case that does not finish within the limit is reported as outcome 30 and the
 /// process stops after flushing (the stuck thread cannot be cancelled)
 static TIMED_OUT: std::sync::atomic::AtomicBool = std::sync::atomic::AtomicBool::new(false);
-fn run(kinds: &[usize], body: &[Stmt], cycles: &[Vec<(usize, i128)>]) -> String {
+fn run(kinds: &[usize], body: &[Stmt], cycles: &[Vec<(usize, i128)>], ext: &Ext) -> String {
     let (tx, rx) = std::sync::mpsc::channel();
-    let (k2, b2, c2) = (kinds.to_vec(), body.to_vec(), cycles.to_vec());
-    std::thread::Builder::new().stack_size(64 << 20).spawn(move || { let _ = tx.send(run_inner(&k2, &b2, &c2)); }).expect("spawn");
+    let (k2, b2, c2, e2) = (kinds.to_vec(), body.to_vec(), cycles.to_vec(), ext.clone());
+    std::thread::Builder::new().stack_size(64 << 20).spawn(move || { let _ = tx.send(run_inner(&k2, &b2, &c2, &e2)); }).expect("spawn");
     let limit = std::env::var("VERIF_CASE_TIMEOUT_S").ok().and_then(|s| s.parse().ok()).unwrap_or(20u64);
     match rx.recv_timeout(std::time::Duration::from_secs(limit)) {
         Ok(s) => s,
@@ -345,9 +446,18 @@ fn run(kinds: &[usize], body: &[Stmt], cycles: &[Vec<(usize, i128)>]) -> String 
     }
 }
 
-fn fmt_line(id: &str, kinds: &[usize], body: &[Stmt], cycles: &[Vec<(usize, i128)>], obs: &str) -> String {
+fn fmt_line(id: &str, kinds: &[usize], body: &[Stmt], cycles: &[Vec<(usize, i128)>], obs: &str, ext: &Ext) -> String {
     let mut o: Vec<String> = vec![kinds.len().to_string()];
     for k in kinds { o.push(k.to_string()); }
+    if id.starts_with('f') {
+        o.push(ext.fbs.len().to_string());
+        for fb in &ext.fbs {
+            o.push((fb.en as u8).to_string()); o.push((fb.eno as u8).to_string());
+            for ks in [&fb.kin, &fb.kout, &fb.kloc] { o.push(ks.len().to_string()); for k in ks { o.push(k.to_string()); } }
+            enc_block(&fb.body, &mut o);
+        }
+        o.push(ext.insts.len().to_string()); for i in &ext.insts { o.push(i.to_string()); }
+    }
     enc_block(body, &mut o);
     let mut c: Vec<String> = vec![cycles.len().to_string()];
     for sets in cycles { c.push(sets.len().to_string()); for (x, v) in sets { c.push(x.to_string()); c.push(v.to_string()); } }
@@ -366,13 +476,14 @@ fn main() {
             let mut d = Dec { t: parts[1].split_whitespace().collect(), p: 0 };
             let nv = d.n() as usize;
             let kinds: Vec<usize> = (0..nv).map(|_| d.n() as usize).collect();
+            let ext = if parts[0].trim().starts_with('f') { d.ext() } else { Ext::default() };
             let body = d.block();
             let mut c = Dec { t: parts[2].split_whitespace().collect(), p: 0 };
             let nc = c.n();
             let cycles: Vec<Vec<(usize, i128)>> = (0..nc).map(|_| { let ns = c.n(); (0..ns).map(|_| (c.n() as usize, c.n())).collect() }).collect();
-            if std::env::var("VERIF_SHOW_SRC").is_ok() { eprintln!("{}", source(&kinds, &body)); }
-            let obs = run(&kinds, &body, &cycles);
-            writeln!(out, "{}", fmt_line(parts[0].trim(), &kinds, &body, &cycles, &obs)).unwrap();
+            if std::env::var("VERIF_SHOW_SRC").is_ok() { eprintln!("{}", source(&kinds, &body, &ext)); }
+            let obs = run(&kinds, &body, &cycles, &ext);
+            writeln!(out, "{}", fmt_line(parts[0].trim(), &kinds, &body, &cycles, &obs, &ext)).unwrap();
             if TIMED_OUT.load(std::sync::atomic::Ordering::SeqCst) { break; }
         }
         out.flush().unwrap();
@@ -390,7 +501,30 @@ fn main() {
         let pool: Vec<usize> = (0..3).map(|_| rng.below(9) as usize).collect();
         let mut kinds: Vec<usize> = (0..nv).map(|_| *rng.pick(&pool)).collect();
         kinds.push(2); kinds.push(8); // always one DINT (loop counter) and one BOOL
-        let body = { let mut g = Gen { rng: &mut rng, kinds: kinds.clone(), counters: vec![], loop_vars: vec![], wild, strict }; g.block(3, false, 5) };
+        // f-cases: function blocks (EN / ENO, inputs, outputs, locals) and calls with named arguments; typed literals only
+        let with_fb = !wild && rng.chance(1, 4);
+        let strict = strict || with_fb;
+        let mut ext = Ext::default();
+        if with_fb {
+            kinds.push(8);
+            for _ in 0..rng.range(1, 2) {
+                let en = rng.chance(2, 3);
+                let mut fb = FbDef { en, eno: rng.chance(1, 2), ..Default::default() };
+                fb.kin = (0..rng.range(1, 2)).map(|_| *rng.pick(&pool)).collect();
+                fb.kout = (0..rng.range(1, 2)).map(|_| *rng.pick(&pool)).collect();
+                fb.kloc = (0..rng.range(0, 2)).map(|_| *rng.pick(&pool)).collect();
+                fb.kloc.push(2);
+                let fk = fb.kinds();
+                let nro = fb.en as usize + fb.kin.len();
+                let mut hidden: Vec<usize> = vec![]; if fb.en { hidden.push(0); } if fb.eno { hidden.push(nro + fb.kout.len()); }
+                let mut g = Gen { rng: &mut rng, kinds: fk, counters: vec![], loop_vars: vec![], wild: false, strict: true, readonly: (0..nro).chain(hidden.iter().copied()).collect(), no_return: true, callable: vec![], hidden };
+                fb.body = g.block(2, false, 4);
+                ext.fbs.push(fb);
+            }
+            for _ in 0..rng.range(1, 3) { let f = rng.below(ext.fbs.len() as u64) as usize; ext.insts.push(f); }
+        }
+        let callable: Vec<(usize, FbDef)> = ext.insts.iter().enumerate().map(|(j, f)| (j, ext.fbs[*f].clone())).collect();
+        let body = { let mut g = Gen { rng: &mut rng, kinds: kinds.clone(), counters: vec![], loop_vars: vec![], wild, strict, readonly: vec![], no_return: false, callable, hidden: vec![] }; g.block(3, false, 5) };
         let nc = rng.range(1, 4);
         let cycles: Vec<Vec<(usize, i128)>> = (0..nc).map(|_| {
             let ns = rng.below(kinds.len() as u64 + 1);
@@ -398,8 +532,8 @@ fn main() {
                 let v = match rng.below(6) { 0 => kmin(k), 1 => kmax(k), 2 => 0, _ => (rng.range(-30, 30) as i128).clamp(kmin(k), kmax(k)) };
                 (x, v) }).collect()
         }).collect();
-        let obs = run(&kinds, &body, &cycles);
-        writeln!(out, "{}", fmt_line(&format!("{}{id}", if wild { "w" } else if strict { "s" } else { "c" }), &kinds, &body, &cycles, &obs)).unwrap();
+        let obs = run(&kinds, &body, &cycles, &ext);
+        writeln!(out, "{}", fmt_line(&format!("{}{id}", if with_fb { "f" } else if wild { "w" } else if strict { "s" } else { "c" }), &kinds, &body, &cycles, &obs, &ext)).unwrap();
         if TIMED_OUT.load(std::sync::atomic::Ordering::SeqCst) { break; }
     }
     out.flush().unwrap();
